@@ -84,8 +84,15 @@ func c09Gen(r *Rand, tier string, emit func(op any)) {
 			}
 		}
 	}
+	for _, base := range []string{"combine1", "combine2", "bwsraw"} {
+		gs := make([][]c09Act, 4)
+		for i := range gs {
+			gs[i] = []c09Act{{A: "log", Lvl: 0, Fe: "plain"}, {A: "log", Lvl: 2, Fe: "sugarw"}, {A: "sync"}, {A: "log", Lvl: 1, Fe: "plain"}}
+		}
+		emit(c09Op{K: "prog", Cfg: c09Cfg{Base: base, Wrap: []string{}}, Warm: true, Gs: gs})
+	}
 	for i := 0; i < n; i++ {
-		cfg := c09Cfg{Base: Pick(r, []string{"obs", "io", "io", "bws", "bwsraw"}), SlogDepth: Pick(r, []int{0, 0, 3, 5, 6, 7}), Wrap: []string{}}
+		cfg := c09Cfg{Base: Pick(r, []string{"obs", "io", "io", "bws", "bwsraw", "combine1", "combine2"}), SlogDepth: Pick(r, []int{0, 0, 3, 5, 6, 7}), Wrap: []string{}}
 		nw := r.Intn(5)
 		for j := 0; j < nw; j++ {
 			w := Pick(r, c09Wraps)
@@ -154,6 +161,12 @@ func c09Build(op *c09Op) *c09World {
 		// flush interval make Write-overflow flushes, ticks and explicit Syncs all reach the sink
 		w.bws = &zapcore.BufferedWriteSyncer{WS: w.sink, Size: 256, FlushInterval: 200 * time.Microsecond}
 		core = zapcore.NewTee(zapcore.NewCore(zapcore.NewJSONEncoder(encCfg), w.bws, w.al), obsCore)
+	case "combine1":
+		// zap.CombineWriteSyncers is documented to return a LOCKED WriteSyncer — of one writer as well as of several (it is
+		// what zap.Open and Config.Build put in front of the sinks they open); the sink itself is not synchronised
+		core = zapcore.NewTee(zapcore.NewCore(zapcore.NewJSONEncoder(encCfg), zap.CombineWriteSyncers(w.sink), w.al), obsCore)
+	case "combine2":
+		core = zapcore.NewTee(zapcore.NewCore(zapcore.NewJSONEncoder(encCfg), zap.CombineWriteSyncers(w.sink, &c09Sink{}), w.al), obsCore)
 	case "bws":
 		w.bws = &zapcore.BufferedWriteSyncer{WS: zapcore.Lock(w.sink), Size: 512, FlushInterval: time.Millisecond}
 		core = zapcore.NewTee(zapcore.NewCore(zapcore.NewJSONEncoder(encCfg), w.bws, w.al), obsCore)
